@@ -3,7 +3,7 @@
 From Coq Require Import NArith List Bool Arith.
 Import ListNotations.
 
-Definition id := nat.
+Notation id := nat (only parsing).
 Definition str := list N.
 
 Inductive ntype := TElem | TText | TCData | TERef | TPI | TComment | TDoc | TFrag | TAttr.
